@@ -5,7 +5,9 @@ from __future__ import annotations
 
 import itertools
 
+from checks import c17_hist as H
 from mc import domains as D
+from mc.alias import Keeper
 from mc.rec import Rec
 from ref import uslp as R
 from units import uslp as UU
@@ -88,7 +90,7 @@ def shards(tier):
         for rule in R.FIXED_RULES:
             for p in range(4):
                 items.append({"kind": "pointer_sweep", "rule": rule, "part": p, "parts": 4})
-    return items
+    return items + H.shards(tier)
 
 
 # ------------------------------------------------------------------ header vectors
@@ -121,9 +123,46 @@ def in_axis_sweeps(r, bgs, groups=AXIS_GROUPS[:2]):
     return False
 
 
-def check_header(rec: Rec, r: dict, nontrivial=True):
+def _obs_hdr(o):
+    """what a caller relies on: the field values and the octets they pack to"""
+    return UU.observe_primary_header(o), bytes(o.pack())
+
+
+def _obs_trunc_hdr(o):
+    return UU.observe_truncated_header(o), bytes(o.pack())
+
+
+def _obs_any_hdr(o):
+    return UU.observe_header(o), bytes(o.pack())
+
+
+def _obs_frame(o):
+    return UU.observe_frame(o), o.len()
+
+
+def _obs_tfdf(o):
+    return UU.observe_tfdf(o), o.len()
+
+
+HOLDS = {"hdr": 6, "trunc_hdr": 6, "frame": 14}  # results held per case; every result is re-observed after its own and after the next case
+
+
+def keeper_for(rec, kind):
+    return Keeper(rec, PROPERTY, depth=2 * HOLDS[kind])
+
+
+def check_header(rec: Rec, r: dict, nontrivial=True, keep=None):
     h = _h()
     case = {"kind": "hdr", "r": r}
+    keep = keep or keeper_for(rec, "hdr")
+    try:
+        _check_header(rec, r, case, nontrivial, keep)
+    finally:
+        keep.recheck(case)
+
+
+def _check_header(rec, r, case, nontrivial, keep):
+    h = _h()
     rec.case(nontrivial, ops=9)
     ref = UU.UNITS["UslpPrimaryHeader"].ref(r)
     exp = UU.expected_primary_header(r)
@@ -134,9 +173,12 @@ def check_header(rec: Rec, r: dict, nontrivial=True):
 
     try:
         hd = UU.build_primary_header(r)
-        got = bytes(hd.pack())
+        out = hd.pack()
+        got = bytes(out)
     except Exception as e:
         return bad("PrimaryHeader.pack/exception/" + type(e).__name__, repr(e), ref)
+    keep.hold("PrimaryHeader()", hd, _obs_hdr, case)
+    keep.hold("PrimaryHeader.pack", out, bytes, case)
     if got != ref:
         return bad("PrimaryHeader.pack/octets/" + ("fixed-part" if got[:7] != ref[:7] else "vcf-count"), got, ref)
     if hd.len() != len(ref) or hd.truncated():
@@ -149,10 +191,13 @@ def check_header(rec: Rec, r: dict, nontrivial=True):
         obs = UU.observe_primary_header(u)
         if obs != exp:
             return bad("PrimaryHeader.unpack/fields/" + ("vcf-count" if obs[:-1] == exp[:-1] else "fixed-part"), obs, exp)
+        keep.hold("PrimaryHeader.unpack", u, _obs_hdr, case)
         if u.len() != len(ref):
             bad("PrimaryHeader.unpack/len", u.len(), len(ref))
     try:
-        again = bytes(u.pack())
+        out2 = u.pack()
+        again = bytes(out2)
+        keep.hold("PrimaryHeader.pack", out2, bytes, case)
         if again != ref:
             bad("unpack-then-pack/octets", again, ref)
     except Exception as e:
@@ -161,9 +206,17 @@ def check_header(rec: Rec, r: dict, nontrivial=True):
         bad("determine_header_type", repr(h.determine_header_type(ref)), "NON_TRUNCATED")
 
 
-def check_trunc_header(rec: Rec, r: dict, nontrivial=True):
-    h = _h()
+def check_trunc_header(rec: Rec, r: dict, nontrivial=True, keep=None):
     case = {"kind": "trunc_hdr", "r": r}
+    keep = keep or keeper_for(rec, "trunc_hdr")
+    try:
+        _check_trunc_header(rec, r, case, nontrivial, keep)
+    finally:
+        keep.recheck(case)
+
+
+def _check_trunc_header(rec, r, case, nontrivial, keep):
+    h = _h()
     rec.case(nontrivial, ops=7)
     ref = R.truncated_header(r["scid"], r["src_dest"], r["vcid"], r["map_id"])
     exp = UU.expected_truncated_header(r)
@@ -174,9 +227,12 @@ def check_trunc_header(rec: Rec, r: dict, nontrivial=True):
 
     try:
         hd = UU.build_truncated_header(r)
-        got = bytes(hd.pack())
+        out = hd.pack()
+        got = bytes(out)
     except Exception as e:
         return bad("TruncatedPrimaryHeader.pack/exception/" + type(e).__name__, repr(e), ref)
+    keep.hold("TruncatedPrimaryHeader()", hd, _obs_trunc_hdr, case)
+    keep.hold("TruncatedPrimaryHeader.pack", out, bytes, case)
     if got != ref:
         return bad("TruncatedPrimaryHeader.pack/octets", got, ref)
     if hd.len() != 4 or not hd.truncated():
@@ -188,8 +244,11 @@ def check_trunc_header(rec: Rec, r: dict, nontrivial=True):
             return bad("TruncatedPrimaryHeader.unpack/exception/" + type(e).__name__, repr(e), exp)
         if UU.observe_truncated_header(u) != exp:
             return bad("TruncatedPrimaryHeader.unpack/fields", UU.observe_truncated_header(u), exp)
-    if bytes(u.pack()) != ref or u.len() != 4:
-        bad("unpack-then-pack/octets", bytes(u.pack()), ref)
+        keep.hold("TruncatedPrimaryHeader.unpack", u, _obs_trunc_hdr, case)
+    out2 = u.pack()
+    keep.hold("TruncatedPrimaryHeader.pack", out2, bytes, case)
+    if bytes(out2) != ref or u.len() != 4:
+        bad("unpack-then-pack/octets", bytes(out2), ref)
     if h.determine_header_type(ref) != h.HeaderType.TRUNCATED:
         bad("determine_header_type", repr(h.determine_header_type(ref)), "TRUNCATED")
 
@@ -262,15 +321,23 @@ def make_props(pk, kw):
     return f.VarFrameProperties(truncated_frame_len=kw.pop("truncated_frame_len"), **kw)
 
 
-def check_frame(rec: Rec, r: dict, fk: str, nontrivial=True):
-    f = _f()
+def check_frame(rec: Rec, r: dict, fk: str, nontrivial=True, keep=None):
     case = {"kind": "frame", "fk": fk, "r": r}
+    keep = keep or keeper_for(rec, "frame")
+    try:
+        _check_frame(rec, r, fk, case, nontrivial, keep)
+    finally:
+        keep.recheck(case)
+
+
+def _check_frame(rec, r, fk, case, nontrivial, keep):
+    f = _f()
     trunc = fk == "trunc"
     ref = UU.ref_frame(r, trunc)
     exp = UU.expected_frame(r, trunc)
     n = len(ref)
     mm = mismatches(r, fk, n)
-    rec.case(nontrivial, ops=12 + len(mm))
+    rec.case(nontrivial, ops=17 + len(mm))
     ft = f.FrameType.FIXED if fk == "fixed" else f.FrameType.VARIABLE
     repro = f"units.uslp.build_frame({r!r}, truncated={trunc})  # pack expected {ref.hex() if n <= 64 else ref[:64].hex() + '..'}; see checks/c17.py check_frame"
 
@@ -281,13 +348,16 @@ def check_frame(rec: Rec, r: dict, fk: str, nontrivial=True):
         fr = UU.build_frame(r, trunc)
     except Exception as e:
         return bad("TransferFrame/constructor-exception/" + type(e).__name__, repr(e), None)
+    keep.hold("TransferFrame()", fr, _obs_frame, case)
     packs = [("pack(truncated=True)", dict(truncated=True)), ("pack(truncated=True,VARIABLE)", dict(truncated=True, frame_type=ft))] if trunc else \
         [("pack(frame_type)", dict(frame_type=ft)), ("pack()", dict())]
     for name, kw in packs:
         try:
-            got = bytes(fr.pack(**kw))
+            out = fr.pack(**kw)
+            got = bytes(out)
         except Exception as e:
             return bad(f"TransferFrame.pack/exception/{type(e).__name__}", {"call": name, "error": repr(e)}, ref)
+        keep.hold("TransferFrame.pack", out, bytes, case)
         if got != ref:
             return bad("TransferFrame.pack/octets", {"call": name, "octets": got}, ref)
     if fr.len() != n:
@@ -297,19 +367,28 @@ def check_frame(rec: Rec, r: dict, fk: str, nontrivial=True):
     # the data field on its own
     tfdz, iz, ocf, fecf = UU.frame_parts(r)
     tref = R.tfdf_header(r["rule"], r["upid"], None if trunc else r.get("ptr")) + tfdz
+    texp = ("tfdf", r["rule"], r["upid"], None if trunc else r.get("ptr"), tfdz)
     try:
         tf = UU.build_tfdf(r)
-        tgot = bytes(tf.pack(truncated=trunc, frame_type=ft))
+        keep.hold("TransferFrameDataField()", tf, _obs_tfdf, case)
+        tout = tf.pack(truncated=trunc, frame_type=ft)
+        tgot = bytes(tout)
+        keep.hold("TransferFrameDataField.pack", tout, bytes, case)
         if tgot != tref:
             bad("TransferFrameDataField.pack/octets", tgot, tref)
         if not trunc and tf.len() != len(tref):
             bad("TransferFrameDataField.len", tf.len(), len(tref))
         if tf.should_have_fhp_or_lvp_field(truncated=trunc, frame_type=ft) != (fk == "fixed") or not tf.verify_frame_type(ft):
             bad("TransferFrameDataField.should_have_fhp_or_lvp_field", None, fk == "fixed")
-        tu = f.TransferFrameDataField.unpack(raw_tfdf=tref + SUFFIX, truncated=trunc, exact_len=len(tref), frame_type=ft)
-        texp = ("tfdf", r["rule"], r["upid"], None if trunc else r.get("ptr"), tfdz)
-        if UU.observe_tfdf(tu) != texp:
-            bad("TransferFrameDataField.unpack/fields", UU.observe_tfdf(tu), texp)
+        # frame_type=None: the construction rule alone tells whether the pointer is there (not for truncated frames,
+        # whose caller says truncated=True)
+        for tname, tft in (("frame_type", ft), ("frame_type=None", None)):
+            tu = f.TransferFrameDataField.unpack(raw_tfdf=tref + SUFFIX, truncated=trunc, exact_len=len(tref), frame_type=tft)
+            if UU.observe_tfdf(tu) != texp:
+                bad("TransferFrameDataField.unpack/fields", {"call": tname, "decoded": UU.observe_tfdf(tu)}, texp)
+            elif tu.len() != len(tref) or bytes(tu.pack(truncated=trunc, frame_type=ft)) != tref:
+                bad("TransferFrameDataField.unpack/len-or-repack", {"call": tname, "len": tu.len(), "pack": bytes(tu.pack(truncated=trunc, frame_type=ft))}, (len(tref), tref))
+            keep.hold("TransferFrameDataField.unpack", tu, _obs_tfdf, case)
     except Exception as e:
         bad("TransferFrameDataField/exception/" + type(e).__name__, repr(e), tref)
     # matching managed parameters
@@ -322,13 +401,28 @@ def check_frame(rec: Rec, r: dict, fk: str, nontrivial=True):
     if obs != exp:
         part = next((i for i, (a, b) in enumerate(zip(obs, exp)) if a != b), 0)
         return bad("TransferFrame.unpack/fields/" + ("?", "header", "insert-zone", "tfdf", "ocf", "fecf")[part], obs, exp)
+    keep.hold("TransferFrame.unpack", u, _obs_frame, case)
+    keep.hold("TransferFrame.unpack.header", u.header, _obs_any_hdr, case)
+    keep.hold("TransferFrame.unpack.tfdf", u.tfdf, _obs_tfdf, case)
     rec.outcome(f"frame-ok:{fk}:iz={len(iz) if iz else 0}:ocf={int(ocf is not None)}:fecf={len(fecf) if fecf else 0}")
     try:
+        # a decoded frame is a frame like any other: length, data-field length, frame-length update, re-pack
         if u.len() != n:
             bad("TransferFrame.unpack/len", u.len(), n)
-        again = bytes(u.pack(truncated=True)) if trunc else bytes(u.pack(frame_type=ft))
+        if u.tfdf.len() != len(tref):
+            bad("TransferFrame.unpack/tfdf.len", u.tfdf.len(), len(tref))
+        out = u.pack(truncated=True) if trunc else u.pack(frame_type=ft)
+        again = bytes(out)
+        keep.hold("TransferFrame.pack", out, bytes, case)
         if again != ref:
             bad("unpack-then-pack/octets", again, ref)
+        if not trunc:
+            u.header.frame_len = 0
+            u.set_frame_len_in_header()
+            if u.header.frame_len != n - 1:
+                bad("TransferFrame.unpack/set_frame_len_in_header", u.header.frame_len, n - 1)
+            elif bytes(u.pack(frame_type=ft)) != ref:
+                bad("unpack-then-pack/octets", bytes(u.pack(frame_type=ft)), ref)
     except Exception as e:
         bad("unpack-then-pack/exception/" + type(e).__name__, repr(e), ref)
     # mismatching managed parameters
@@ -348,19 +442,28 @@ def check_frame(rec: Rec, r: dict, fk: str, nontrivial=True):
                       "one of the Uslp* errors or ValueError", repro=repro)
 
 
+PTR_KINDS = 4
+
+
 def frame_recipes(rule, hdr_index, tier_all_hdrs):
     """rule x UPID full(5) x TFDZ lengths x insert zone x OCF x FECF; header and pointer rotate
-    (or the header is fixed to hdr_index in the thorough tier)."""
-    k = 0
+    (or the header is fixed to hdr_index in the thorough tier).  With j the index of (UPID, TFDZ length)
+    and c the index of (insert zone, OCF, FECF): header (j + c) mod 4, pointer kind (j div 4 + c) mod 4,
+    so that for every c and every TFDZ length all 16 (header, pointer kind) pairs occur (j runs through
+    every residue mod 16 for a fixed length because 19 is a unit mod 16), and consecutive cases differ
+    in header, pointer, FECF and length."""
+    j = 0
     for upid in range(32):
         for n in TFDZ_LENS:
+            c = 0
             for iz in UU.IZS:
                 for ocf in UU.OCFS:
                     for fecf in UU.FECFS:
-                        hdr = UU.HDRS[hdr_index] if tier_all_hdrs else UU.HDRS[k % len(UU.HDRS)]
-                        ptr = (0, 0xFFFF, 0x0102, max(n - 1, 0))[k % 4] if rule in R.FIXED_RULES else None
-                        yield upid, UU.frame_recipe(hdr, rule, upid, ptr, UU.tfdz_pattern(n, k), iz, ocf, fecf)
-                        k += 1
+                        hdr = UU.HDRS[hdr_index] if tier_all_hdrs else UU.HDRS[(j + c) % len(UU.HDRS)]
+                        ptr = (0, 0xFFFF, 0x0102, max(n - 1, 0))[(j // 4 + c) % PTR_KINDS] if rule in R.FIXED_RULES else None
+                        yield upid, UU.frame_recipe(hdr, rule, upid, ptr, UU.tfdz_pattern(n, j * 18 + c), iz, ocf, fecf)
+                        c += 1
+            j += 1
 
 
 TRUNC_HDRS = [dict(scid=12, src_dest=0, vcid=5, map_id=12), dict(scid=0xFFFF, src_dest=1, vcid=63, map_id=15),
@@ -371,13 +474,18 @@ TRUNC_HDRS = [dict(scid=12, src_dest=0, vcid=5, map_id=12), dict(scid=0xFFFF, sr
 def run_shard(item):
     rec = Rec(PROPERTY, item)
     kind = item["kind"]
+    if kind == "hist":
+        H.run_hist_shard(rec, item)
+        return rec.result()
     seen = set()
+    # independence oracle: one keeper per shard, every result of a case is re-observed after the case and after the next one
+    keep = keeper_for(rec, "hdr" if kind.startswith("hdr") else "trunc_hdr" if kind == "trunc_hdr" else "frame")
 
     def hdr_case(r, earlier=False):
         v = vec(r)
         dup = earlier or v in seen
         seen.add(v)
-        check_header(rec, r, nontrivial=not dup)
+        check_header(rec, r, nontrivial=not dup, keep=keep)
 
     if kind == "hdr_sweep":
         axis, k = item["axis"], item["k"]
@@ -427,13 +535,13 @@ def run_shard(item):
         n = 0
         for scid in range(lo, hi):
             for i in range(k):
-                check_trunc_header(rec, dict(scid=scid, src_dest=i & 1, vcid=b6[i], map_id=b4[i]))
+                check_trunc_header(rec, dict(scid=scid, src_dest=i & 1, vcid=b6[i], map_id=b4[i]), keep=keep)
                 n += 1
         if item["part"] == 0:
             for scid in D.edge(16):
                 for vcid, mapid, sd in itertools.product(D.full(6), D.full(4), (0, 1)):
                     dup = scid in range(lo, hi) and any((sd, vcid, mapid) == (i & 1, b6[i], b4[i]) for i in range(k))
-                    check_trunc_header(rec, dict(scid=scid, src_dest=sd, vcid=vcid, map_id=mapid), nontrivial=not dup)
+                    check_trunc_header(rec, dict(scid=scid, src_dest=sd, vcid=vcid, map_id=mapid), nontrivial=not dup, keep=keep)
                     n += 1
             r = dict(scid=0x1111, src_dest=1, vcid=0b101101, map_id=0b1101)
             rec.sample({"truncated_header": r, "octets": R.truncated_header(0x1111, 1, 0b101101, 0b1101)}, limit=1)
@@ -452,7 +560,7 @@ def run_shard(item):
         n = 0
         for upid, r in frame_recipes(rule, item["hdr"] or 0, item["hdr"] is not None):
             if lo <= upid < hi:
-                check_frame(rec, r, fk)
+                check_frame(rec, r, fk, keep=keep)
                 n += 1
                 if n == 700 and rule in (1, 6):
                     rec.sample({"frame": r, "kind": fk, "octets": UU.ref_frame(r)}, limit=1)
@@ -463,7 +571,7 @@ def run_shard(item):
         for upid in range(32):
             for ln in TFDZ_LENS:
                 r = UU.frame_recipe(TRUNC_HDRS[n % 4], rule, upid, None, UU.tfdz_pattern(ln, n), None, None, None)
-                check_frame(rec, r, "trunc")
+                check_frame(rec, r, "trunc", keep=keep)
                 n += 1
         rec.count("frames_trunc", n)
     elif kind == "pointer_sweep":
@@ -471,8 +579,11 @@ def run_shard(item):
         lo, hi = 65536 * item["part"] // item["parts"], 65536 * (item["part"] + 1) // item["parts"]
         for ptr in range(lo, hi):
             check_frame(rec, UU.frame_recipe(UU.HDRS[ptr % 4], rule, ptr & 31, ptr, UU.tfdz_pattern(ptr % 5, ptr), UU.IZS[ptr % 3], UU.OCFS[ptr % 2], UU.FECFS[(ptr // 3) % 3]), "fixed",
-                        nontrivial=ptr not in (0, 0xFFFF, 0x0102))
+                        nontrivial=ptr not in (0, 0xFFFF, 0x0102), keep=keep)
         rec.count("pointer_values_swept", hi - lo)
+    keep.flush()
+    # engine V shards: a distinct case is a state, a compared library operation a transition, an executed case a trace
+    rec.states, rec.transitions, rec.traces = rec.nontrivial, rec.ops, rec.evaluations
     return rec.result()
 
 
@@ -488,6 +599,8 @@ def replay(case):
         check_range(rec, case["field"], case["ctor"], int(case["v"]))
     elif k == "frame":
         check_frame(rec, case["r"], case["fk"])
+    elif k == "hist":
+        H.replay_hist(rec, case)
     return rec.result()
 
 
